@@ -1771,9 +1771,13 @@ Section BuildTotal.
     | |- context [match ?p with [] => _ | _ :: _ => _ end] =>
         assert (Hpre : user_errors p) by ue; destruct p as [|e0 pre]
     end.
-    - destruct (eval f (lookup consts) dflt) as [v|es] eqn:Ee; cbn [fst t_errs].
-      + ue.
-      + apply ue_app; [exact Hue | apply (ue_eval _ _ _ _ Ee)].
+    - match goal with
+      | |- context [check ?a ?b ?c ?d] => destruct (check a b c d) as [wc|esc] eqn:Ec
+      end.
+      + destruct (eval f (lookup consts) dflt) as [v|es] eqn:Ee; cbn [fst t_errs].
+        * ue.
+        * apply ue_app; [exact Hue | apply (ue_eval _ _ _ _ Ee)].
+      + cbn [fst t_errs]. apply ue_app; [exact Hue | apply (ue_check _ _ _ _ _ Ec)].
     - cbn [fst t_errs]. apply ue_app; [exact Hue | exact Hpre].
   Qed.
 
@@ -1916,13 +1920,19 @@ Proof. induction s as [|c r IH]; cbn [drop_cont_bytes skip_cont]; [reflexivity|]
 Lemma bank_signal_shaped_like n : bank_signal_shaped n = bank_like n.
 Proof. destruct n as [|a r]; [reflexivity|]. cbn [bank_signal_shaped bank_like]. rewrite drop_cont_skip. reflexivity. Qed.
 
+Lemma starts_with_sprefix p : forall s, starts_with p s = sprefix p s.
+Proof.
+  induction p as [|a p IH]; intros s; cbn [starts_with sprefix]; [reflexivity|].
+  destruct s as [|b s]; [reflexivity|]. rewrite IH. reflexivity.
+Qed.
+
 Lemma scheduler_call_inv f fixed il iu stmts widths consts assigns known decls k :
   scheduler_call f fixed il iu stmts = Some (widths, consts, assigns, known, decls, k) ->
   let s := fold_left (step1 fixed) stmts (init1 fixed) in
   let t := fold_left (step3_bank f il iu s consts) (s_banks s) (mkSt3 [] [] (s_types s) [] [] []) in
   s_errs s = [] /\ const_assigned_errors s = [] /\ const_ref_errors s = [] /\
   resolve_constants f (s_consts s) = Ok consts /\ t_errs t = [] /\
-  assigns = s_assigns s /\ known = all_out_names (t_banks t) ++ map fst consts /\ decls = s_decls s.
+  assigns = s_assigns s /\ known = all_out_names (t_banks t) ++ t_defaulted t ++ map fst consts /\ decls = s_decls s.
 Proof.
   unfold scheduler_call. cbv zeta.
   set (s := fold_left (step1 fixed) stmts (init1 fixed)).
@@ -1954,16 +1964,26 @@ Proof.
   destruct H as [E1a [E1b [_ [E2 [E3 [-> [-> _]]]]]]].
   set (s := fold_left (step1 fixed) stmts (init1 fixed)) in *.
   set (t := fold_left (step3_bank f il iu s consts) (s_banks s) (mkSt3 [] [] (s_types s) [] [] [])) in *.
-  assert (Hpl : forall n, In n (fixed_names fixed) -> bank_like n = false).
-  { intros n Hn. rewrite <- bank_signal_shaped_like. apply Hplain. rewrite <- fixed_names_all. exact Hn. }
+  assert (Hpl : forall n, In n (fixed_names fixed) ->
+                  bank_like n = false /\ sprefix "stall_" n = false /\ sprefix "bubble_" n = false).
+  { intros n Hn. rewrite <- bank_signal_shaped_like, <- !starts_with_sprefix.
+    apply Hplain. rewrite <- fixed_names_all. exact Hn. }
   (* no known value is a table name *)
-  assert (HK : forall n, In n (all_out_names (t_banks t) ++ map fst consts) -> ~ In n (fixed_names fixed)).
-  { intros n Hn Hfn. apply in_app_iff in Hn. destruct Hn as [Hn|Hn].
+  assert (HK : forall n, In n (all_out_names (t_banks t) ++ t_defaulted t ++ map fst consts) ->
+                         ~ In n (fixed_names fixed)).
+  { intros n Hn Hfn. apply in_app_iff in Hn. destruct Hn as [Hn|Hn]; [|apply in_app_iff in Hn; destruct Hn as [Hn|Hn]].
     - change (In n (all_outs (t_banks t))) in Hn.
       apply sig_of_out in Hn. destruct Hn as [sg [Hsg <-]].
       destruct (T3_facts f il iu s consts E3) as [_ [F2 _]]. rewrite Forall_forall in F2.
       apply F2 in Hsg. destruct Hsg as [_ [_ [_ [_ [S5 _]]]]].
-      rewrite (Hpl _ Hfn) in S5. discriminate S5.
+      rewrite (proj1 (Hpl _ Hfn)) in S5. discriminate S5.
+    - destruct (T3_defaulted f il iu s consts n Hn) as [_ [b [Hb H2]]].
+      destruct (T3_facts f il iu s consts E3) as [_ [_ F3]]. rewrite Forall_forall in F3.
+      destruct (F3 b Hb) as [_ [[X [Hst Hbu]] _]].
+      destruct (Hpl _ Hfn) as [_ [P2 P3]].
+      destruct H2 as [->| ->].
+      + rewrite Hst, sprefix_stall in P2. discriminate P2.
+      + rewrite Hbu, sprefix_bubble in P3. discriminate P3.
     - destruct (resolve_constants_keys f _ _ E2) as [_ Hk]. apply Hk in Hn.
       assert (Hc : In n (const_names stmts)) by (apply (S1_consts_has fixed il iu); exact Hn).
       destruct (S1_decls_fresh fixed il iu stmts E1a) as [_ Hf]. apply (Hf n); [|exact Hfn].
@@ -1998,9 +2018,12 @@ Qed.
 
 Lemma gen_fixed_names_plain : table_names_plain gen_fixed.
 Proof.
-  assert (H : forallb (fun n => negb (bank_signal_shaped n)) (fixed_all_names gen_fixed) = true)
+  assert (H : forallb (fun n => negb (bank_signal_shaped n) && negb (starts_with "stall_" n) &&
+                                negb (starts_with "bubble_" n)) (fixed_all_names gen_fixed) = true)
     by (vm_compute; reflexivity).
-  intros n Hn. rewrite forallb_forall in H. apply H in Hn. apply negb_true_iff in Hn. exact Hn.
+  intros n Hn. rewrite forallb_forall in H. apply H in Hn.
+  apply andb_true_iff in Hn. destruct Hn as [Hn H3]. apply andb_true_iff in Hn. destruct Hn as [H1 H2].
+  apply negb_true_iff in H1, H2, H3. split; [exact H1|]. split; assumption.
 Qed.
 
 (* ====================================================================================== *)
@@ -2106,7 +2129,7 @@ Example ex_scheduler_call :
   exists widths k,
     scheduler_call gen_features gen_fixed ascii_lower ascii_upper ex_stmts =
     Some (widths, [], flat_map (fun s => match s with SAssign a => map (fun ne => (hd "" (fst ne), snd ne)) a | _ => [] end) ex_stmts,
-          ["Y_c"], [], k).
+          ["Y_c"; "stall_Y"; "bubble_Y"], [], k).
 Proof. vm_compute. eexists. eexists. reflexivity. Qed.
 
 Example ex_graphs_wf :
